@@ -755,11 +755,11 @@ macro_rules! vec_freeze_case {
         }
     };
 }
-// @h props=C01,C02,C03,C07 tier=quick flags=leak group=step note=freeze_full_vec(len==cap,off=0)_becomes_promotable
+// @h props=C01,C02,C03,C07,C18 tier=quick flags=leak group=step note=freeze_full_vec(len==cap,off=0)_becomes_promotable
 vec_freeze_case!(vec_freeze_full, 0, V);
-// @h props=C01,C02,C03,C07 tier=quick flags=leak group=step note=freeze_vec_with_spare_capacity_and_offset_becomes_shared+advance
+// @h props=C01,C02,C03,C07,C18 tier=quick flags=leak group=step note=freeze_vec_with_spare_capacity_and_offset_becomes_shared+advance
 vec_freeze_case!(vec_freeze_spare_off, 2, 3);
-// @h props=C01,C02,C03,C07 tier=quick flags=leak group=step note=freeze_full_vec_with_offset(promotable+advance)
+// @h props=C01,C02,C03,C07,C18 tier=quick flags=leak group=step note=freeze_full_vec_with_offset(promotable+advance)
 vec_freeze_case!(vec_freeze_full_off, 3, V - 3);
 // @h props=C01,C02,C03,C07 tier=thorough flags=leak group=step note=freeze_empty_vec
 vec_freeze_case!(vec_freeze_empty, 0, 0);
@@ -803,7 +803,7 @@ pub fn arc_freeze() {
     }
 }
 
-// @h props=C01,C02,C03,C04,C07,C08 tier=quick flags=leak group=step note=frozen_vtable:clone/into_vec/into_mut/is_unique/drop_from_arbitrary_state
+// @h props=C01,C02,C03,C04,C07,C08,C18 tier=quick flags=leak group=step note=frozen_vtable:clone/into_vec/into_mut/is_unique/drop_from_arbitrary_state
 #[kani::proof]
 #[cfg_attr(not(verif_big), kani::unwind(10))]
 #[cfg_attr(verif_big, kani::unwind(19))]
